@@ -57,8 +57,14 @@ def _cleanup():
         shutil.rmtree(d, ignore_errors=True)
 
 
+_built = False
+
+
 def build_harness():
-    """(Re)build the harness against /repo's working tree with the hook guard on."""
+    """(Re)build the harness against /repo's working tree with the hook guard on (once per process)."""
+    global _built
+    if _built:
+        return VH
     os.makedirs(os.path.join(HARNESS, "target"), exist_ok=True)
     lock = open(os.path.join(HARNESS, "target", ".verif-build.lock"), "w")
     fcntl.flock(lock, fcntl.LOCK_EX)
@@ -85,6 +91,7 @@ def build_harness():
         if p.returncode != 0:
             log(p.stdout)
             raise ToolError("shim build failed")
+    _built = True
     return VH
 
 
@@ -261,6 +268,7 @@ class HarnessCrash(Exception):
 def run_vh_parallel(jobs, timeout=3600):
     """jobs: list of arg lists.  Runs up to 14 at a time.  Returns list of result dicts.
     A job that dies without a RESULT yields {"crashed": True, "rc":…, "inflight": case} instead."""
+    build_harness()
     procs = []
     results = [None] * len(jobs)
     pending = list(enumerate(jobs))
